@@ -2649,6 +2649,12 @@ func (self *LockDB) doLock(lockManager *LockManager, lock *Lock) bool {
 	if lockManager.locked == 0 {
 		return true
 	}
+	if lock.command.Flag&protocol.LOCK_FLAG_FROM_AOF != 0 {
+		// a record of the log (start-up, replication): the hold was admitted when it was granted. Replay
+		// must not decide again - the records are in persistence order, not in grant order, and the holder
+		// whose Count admitted this one may have left or may not be in the log
+		return true
+	}
 	if lock.command.Count == 0 {
 		return false
 	}
